@@ -40,6 +40,13 @@ func runC08(c *Ctx) {
 	r.Doc("K3", "v1: ingest/reset/send of the buffer only under a `!unreleased` test with no setter since", 3)
 	r.Doc("K4", "the buffer has no second reference: it flows only to append/len/reslice/output", 3)
 	r.Doc("K5", "unite never writes through a received input slice", 1)
+	// K6 (= H10 on the join disciplines): the methods that freeze / empty / fill the buffer work on
+	// the discipline itself, not on a copy (a value-receiver `freeze()` sets `unreleased` on a copy:
+	// after a stop the buffer the consumer still holds is appended to and sent again)
+	r.Doc("K6", "(= C20 H10) every method of a join discipline has a pointer receiver: state changes (unreleased, the buffer) are made to the discipline, not to a copy", 30)
+	for _, p := range []*Prog{c.V1, c.V2} {
+		checkPointerReceivers(c, p, "K6", func(d *Disc) bool { return strings.HasPrefix(d.Rel, "join") })
+	}
 	for _, jr := range joinDiscs(c) {
 		checkK1(c, jr)
 		checkK2(c, jr)
